@@ -156,8 +156,14 @@ def sx_hex(x):
 
 
 def sx_hash(x):
+    """hash() of a str / bytes depends on the interpreter's hash seed: an environment value (an arbitrary 64-bit integer that
+    is a function of the text within one run and unrelated between two compared runs)"""
     if isinstance(x, PROXY):
         raise EngineError("hash() of a symbolic value")
+    if isinstance(x, (str, bytes)) and core.active():
+        raw = x.encode("utf-8", "surrogatepass") if isinstance(x, str) else x
+        v = z3.BitVec("env_hash%s[%s]" % (models.ENV.tag, raw.hex()), 64)
+        return SInt(v, -(1 << 63), (1 << 63) - 1, 64)
     return hash(x)
 
 
@@ -372,7 +378,26 @@ def _table_lookup(keys_vals, key, missing):
     return cands[-1][1]
 
 
+_LL_MEMO = {}
+
+
 def _list_lookup(lst, idx):
+    try:
+        key = (tuple(lst), idx.e.get_id(), idx.lo, idx.hi)
+        hit = _LL_MEMO.get(key)
+    except TypeError:
+        key = hit = None
+    if hit is not None:
+        return hit[0]
+    r = _list_lookup0(lst, idx)
+    if key is not None and not (idx.lo >= len(lst) or idx.lo < 0 or idx.hi >= len(lst)):
+        if len(_LL_MEMO) > 100000:
+            _LL_MEMO.clear()
+        _LL_MEMO[key] = (r, idx)
+    return r
+
+
+def _list_lookup0(lst, idx):
     n = len(lst)
     if idx.lo >= n or idx.hi < -n:
         raise IndexError("list index out of range")
